@@ -1,1 +1,29 @@
-fn main() { println!("vh ok"); }
+use async_graphql::*;
+#[derive(Interface)]
+#[graphql(field(name = "id", ty = "ID"))]
+pub enum Entity { Company(Company), Organization(Organization) }
+#[derive(Interface)]
+#[graphql(field(name = "id", ty = "ID"))]
+pub enum Node { Entity(Entity) }
+pub struct Company {}
+#[Object]
+impl Company { pub async fn id(&self) -> ID { "88".into() } pub async fn c(&self) -> i32 { 1 } }
+pub struct Organization {}
+#[Object]
+impl Organization { pub async fn id(&self) -> ID { "99".into() } }
+struct Query;
+#[Object]
+impl Query {
+    async fn company(&self) -> Node { Entity::Company(Company {}).into() }
+    async fn entity(&self) -> Entity { Entity::Organization(Organization {}) }
+}
+fn main() {
+    let schema = Schema::new(Query, EmptyMutation, EmptySubscription);
+    for q in ["{ company { __typename id } }", "{ company { ... on Company { c } } }", "{ company { ... on Entity { id } } }",
+              "{ entity { __typename ... on Node { id } } }",
+              "{ __type(name: \"Node\") { possibleTypes { kind name } } c: __type(name: \"Company\") { interfaces { name } } }"] {
+        let r = futures_executor::block_on(schema.execute(q));
+        println!("{q}\n  => {}", serde_json::to_string(&r).unwrap());
+    }
+    println!("{}", schema.sdl());
+}
